@@ -482,6 +482,8 @@ def correspondence(ctx):
     collection_stream(ctx, ctx.budget(60, 600))
     complex_segment_stream(ctx, ctx.budget(40, 400))
     subcollection_stream(ctx, ctx.budget(30, 300))
+    from props import c17
+    c17.collinear_start_stream(ctx, ctx.budget(10, 100), prefix="C16")
     element_stream(ctx, ctx.budget(40, 400))
     import colllib
     colllib.run(ctx, ctx.budget(200, 2500), prefix="C16",
